@@ -177,12 +177,12 @@ CHECKS = {
     "C03": {
         "groups": [{
             "pkg": BS, "funcs": ["VerifC03Forged", "VerifC03LocalWrite"],
-            "covers": {"VerifC03Forged": ["as-head", "as-ancestor", "as-foreign-ref", "id-swap"], "VerifC03LocalWrite": ["allowed", "denied", "denied-twice"]},
+            "covers": {"VerifC03Forged": ["as-head", "as-ancestor", "as-foreign-ref", "id-swap", "spoofed-address-first"], "VerifC03LocalWrite": ["allowed", "denied", "denied-twice"]},
         }, {"cross_solvers": ["cvc5", "z3-new"], "pkg": ACI, "funcs": ["VerifC03CanAppend"], "covers": {"VerifC03CanAppend": ["decided", "after-genuine"]}},
            {"cross_solvers": ["cvc5", "z3-new"], "pkg": ACS, "funcs": ["VerifC03CanAppend"], "covers": {"VerifC03CanAppend": ["decided", "after-genuine"]}},
            {"pkg": ACO, "funcs": ["VerifC03CanAppend"], "covers": {"VerifC03CanAppend": ["decided", "after-genuine"]}},
            {"pkg": ODB, "funcs": ["VerifC03Instance"],
-            "covers": {"VerifC03Instance": ["created", "via-sync", "via-direct-channel", "via-topic", "delivered", "local-write-refused", "opener-passes-own-list", "opener-reuses-parameters"]}}],
+            "covers": {"VerifC03Instance": ["created", "via-sync", "via-direct-channel", "via-topic", "delivered", "local-write-refused", "opener-passes-own-list", "opener-reuses-parameters", "spoofed-address-first"]}}],
         "assumptions": [
             "write lists with an EMPTY entry, a truncated id or an id with a suffix (concrete cases, replayable natively): they name nobody",
             "a refused local write is repeated: the second attempt returns an error too (nothing, not even a lock, is left behind) and the replication status is untouched",
@@ -192,6 +192,7 @@ CHECKS = {
             "local write by an identity outside / inside the list, under the wildcard, and with the default (creator-only) list",
             "unit harnesses of the three controllers' CanAppend with a symbolic write list (<= 2 ids, each any 1-byte string or the id of identity a / b, optional wildcard at any position) and an author that is genuine (a or b) or forged by b (a's id with b's key and signatures; id re-signed by b with a's voucher copied; a's block copied with b's entry key; a's block without signatures; a's id and id signature copied under b's key with b's or a's voucher), decided on a fresh controller or after the controller has decided a genuine entry of a (state a controller or a process-wide cache keeps must not make a forgery acceptable): admitted iff listed AND genuine",
             "harness identities are well-formed orbitdb identities over the symbolic signature scheme (id = hex of the id key, Signatures.ID = sign(public key, id), Signatures.PublicKey = sign(id key, hex(public key ++ id signature))), so the real VerifyEntryIdentity accepts them and rejects forgeries",
+            "spoofed-address-first (VerifC03Instance, VerifC03Forged): before the forged entry arrives under its own address, a copy of a GENUINE entry that merely claims the forged entry's address is offered (and refused or ignored); a verdict remembered under the claimed address must not admit the forged entry later",
             "instance harness (VerifC03Instance): one real orbitDB instance creates a permissive and a restricted database (ipfs controller with manifest / manifest-less simple controller, either creation order); the write list each store enforces is the one resolved by createStore -> acutils.Resolve from the manifest; a non-writer's entry reaches the instance by manual sync, direct-channel head exchange (monitorDirectChannel) or topic announcement; the non-writer's local write on its own replica must fail",
         ],
         "outside": ["real secp256k1", "identity providers other than orbitdb", "routes load-from-cache and snapshot (they reach the same Join)"],
@@ -205,12 +206,13 @@ CHECKS = {
             "params": {"quick": {"F": 3, "H": 3}, "thorough": {"F": 5, "H": 4}},
             "covers": {"VerifC04ForeignChain": ["via-refs", "via-next", "restarted", "relayed", "trimmed-load", "trimmed-load-after-restart", "foreign-entries-by-the-local-identity"]},
         }, {
-            "pkg": BS, "funcs": ["VerifC04Snapshot"],
-            "covers": {"VerifC04Snapshot": ["snapshot-rewritten", "impersonates-an-ancestor", "impersonates-the-head", "loaded"]},
+            "pkg": BS, "funcs": ["VerifC04Snapshot", "VerifC04SnapshotAfterReject"],
+            "covers": {"VerifC04Snapshot": ["snapshot-rewritten", "impersonates-an-ancestor", "impersonates-the-head", "loaded"], "VerifC04SnapshotAfterReject": ["rejected-live", "snapshot-loaded-after-restart"]},
         }],
         "assumptions": [
             "the foreign chain is written by the remote writer or by the LOCAL replica's own identity (one instance uses one identity for all its databases)",
             "the tampered (re-addressed) entry is also delivered as an ancestor reached through REFS only, behind a next entry the replica already holds",
+            "snapshot after a rejection (VerifC04SnapshotAfterReject): a tampered (payload, clock or signature) and re-addressed ancestor linked under a valid head is rejected by live replication but stays in the block store; the replica (with or without an own write) saves a snapshot, restarts and loads it into an empty store: the tampered entry is not merged on that route either",
             "snapshot route (VerifC04Snapshot): the snapshot file of a two-entry log is rewritten (it is referenced from the local cache only): the frame of the ancestor or of the head is replaced by another validly signed entry of the same writer and database that CLAIMS the replaced entry's address; a fresh instance loads it; every merged entry must hash to the address it is listed under",
             "a valid entry of an authorised writer, one field of its wire form replaced (payload by a symbolic byte, clock time by ANY other 64-bit value, clock id, next, refs, key, signature, log id, only the claimed address, or the claimed address replaced by an alias with the same multihash digest and another codec), keeping the claimed address or re-addressed; delivered as an announced head or (re-addressed) as the ancestor of a valid head",
             "content addressing = perfect hash of every wire field except the hash; ancestors are fetched by hash, hence their content is whatever hashes to it; perfect symbolic signatures over the hashable form computed by the real ToHashable/toBuffer",
@@ -695,12 +697,13 @@ CHECKS = {
             "params": {"quick": {"W": 3, "STEPS": 3}, "thorough": {"W": 3, "STEPS": 5}},
             "max_paths": {"quick": 60000, "thorough": 800000},
             "timeout": {"quick": "10m", "thorough": "90m"},
-            "covers": {"VerifC08Writers": ["exchanged", "converged"]},
+            "covers": {"VerifC08Writers": ["exchanged", "converged", "latest-with-several-heads"]},
         }, {
             "pkg": EL, "funcs": ["VerifC08SortFn"],
             "covers": {"VerifC08SortFn": ["restart-load", "restart-snapshot"]},
         }],
         "assumptions": [
+            "latest-entry queries (VerifC08Writers): after every step, on every replica, the unbounded queries with amount unset, 0 or 1 (and nil options) return exactly the last entry of the full listing, also while the log has several heads",
             "sort function as an option (VerifC08SortFn): two writers opened with a SortFn whose tie-break is the opposite of the default, two concurrent pairs, head exchanges; restart + Load or restart + snapshot; the listing follows that function on every route, a restart does not change the order of listed entries, later merges keep it",
             "listing of N entries with distinct hashes; one bound kind (none/GT/GTE/LT/LTE) at every position; Amount unset or ANY 64-bit integer (symbolic)",
             "store built by the real NewOrbitDBEventLogStore/InitBaseStore over stubs; index fed through the real eventIndex.UpdateIndex",
